@@ -364,6 +364,667 @@ def w_corpus(chunk):
     return n, keys, samples, viol, dict(stats)
 
 
+# ==== coverage-audit extension ======================================================================================================
+# ---- numb: star states through the public incremental API under non-trivial atom numbers -------------------------------------------
+NUMBERINGS = ('desc', 'gaps', 'k999', 'big')
+
+
+def star_numbers(scheme, k, r):
+    """(centre number, neighbour numbers) - never 1..N in order"""
+    if scheme == 'desc':
+        return k + 1, list(range(k, 0, -1))
+    if scheme == 'gaps':
+        nums = r.sample(range(1, 500), k + 1)
+        return nums[0], nums[1:]
+    if scheme == 'k999':
+        nums = list(range(998, 998 + k + 1))
+        r.shuffle(nums)
+        return nums[0], nums[1:]
+    nums = r.sample(range(65530, 70000), k + 1)
+    return nums[0], nums[1:]
+
+
+def build_star_public(sym, ch, rad, envt, centre, nums, centre_pos):
+    """public API only: every add_atom / add_bond runs fix_structure over the atoms it changed; the centre is inserted at position
+    centre_pos among the neighbours, each bond directly after both of its ends exist"""
+    from chython.containers import MoleculeContainer
+    from chython.periodictable import Element
+    m = MoleculeContainer()
+    pending = []
+    have_centre = False
+    for i, ((o, e), j) in enumerate(zip(envt, nums)):
+        if i == centre_pos:
+            m.add_atom(Element.from_symbol(sym)(charge=ch, is_radical=rad), centre)
+            have_centre = True
+            for oo, jj in pending:
+                m.add_bond(jj, centre, oo)
+            pending = []
+        m.add_atom(e, j)
+        if have_centre:
+            m.add_bond(centre, j, o)
+        else:
+            pending.append((o, j))
+    if not have_centre:
+        m.add_atom(Element.from_symbol(sym)(charge=ch, is_radical=rad), centre)
+        for oo, jj in pending:
+            m.add_bond(jj, centre, oo)
+    return m
+
+
+def check_numb(sym, ch, rad, envt, scheme, centre, nums, centre_pos):
+    envt = tuple(tuple(x) for x in envt)
+    tag = f'{statekey(sym, ch, rad, envt)}@{scheme}:{centre}/{",".join(map(str, nums))}/{centre_pos}'
+    wit = {'kind': 'numb', 'element': sym, 'charge': ch, 'radical': rad, 'bonds': [list(x) for x in envt], 'scheme': scheme,
+           'centre': centre, 'numbers': list(nums), 'centre_pos': centre_pos}
+    m = build_star_public(sym, ch, rad, envt, centre, nums, centre_pos)
+    if atom_env(m, centre) != tuple(sorted(envt)):
+        raise RuntimeError(f'harness: star {tag} not built as specified')
+    bad, _ = check_atoms(m, tag, h3=(centre,))
+    tb, _ = check_totals(m, tag)
+    bad += tb
+    key = f'numb:{statekey(sym, ch, rad, envt)}@{scheme}'
+    return [(f'{key}:{c}', what, wit, native) for c, what, native in bad], m._atoms[centre].implicit_hydrogens
+
+
+def w_numb(item):
+    _setup()
+    from bounded import domains
+    sym, charges, neigh, sizes, part, parts = item
+    n = 0
+    keys, samples, viol = [], [], []
+    stats = Counter()
+    r = domains.rnd(f'c04numb:{sym}:{part}')
+    for i, envt in enumerate(_multisets(neigh, sizes)):
+        if i % parts != part:
+            continue
+        for ch in charges:
+            for rad in (False, True):
+                scheme = NUMBERINGS[(i + ch + rad) % len(NUMBERINGS)]
+                envs = list(envt)
+                r.shuffle(envs)
+                centre, nums = star_numbers(scheme, len(envs), r)
+                v, h = check_numb(sym, ch, rad, envs, scheme, centre, nums, r.randrange(len(envs) + 1))
+                n += 1
+                stats[scheme] += 1
+                if h is not None:
+                    keys.append(statekey(sym, ch, rad, envt) + '@' + scheme)
+                if v and len(viol) < MAXV:
+                    viol.extend(v[:MAXV - len(viol)])
+    return n, keys, samples, viol, dict(stats)
+
+
+# ---- gen: whole generated molecules, derived containers ------------------------------------------------------------------------------
+def _brutto_sum(parts):
+    c = Counter()
+    for p in parts:
+        for k, v in p.brutto.items():
+            c[k] += v
+    return {k: v for k, v in c.items() if v}
+
+
+def check_derived(m, tag, r):
+    """copy / substructure / split / union: the counts of the result are again the determined ones (H1, H2) and totals add up"""
+    bad = []
+    c = m.copy()
+    for n, a in m._atoms.items():
+        if c._atoms[n].implicit_hydrogens != a.implicit_hydrogens:
+            bad.append(('D-copy', f'{tag}: copy() changed implicit_hydrogens of atom {n}: {a.implicit_hydrogens} -> {c._atoms[n].implicit_hydrogens}',
+                        {'atom': n}))
+    atoms = list(m._atoms)
+    if len(atoms) > 1:
+        sub_atoms = r.sample(atoms, r.randrange(1, len(atoms)))
+        sub = m.substructure(sub_atoms)
+        b, _ = check_atoms(sub, f'{tag} substructure({sorted(sub_atoms)})', h3=())
+        bad += [('D-substructure.' + cn.split('-')[0], what, nat) for cn, what, nat in b]
+        sub = m.substructure(sub_atoms, recalculate_hydrogens=False)
+        for n in sub_atoms:
+            if sub._atoms[n].implicit_hydrogens != m._atoms[n].implicit_hydrogens:
+                bad.append(('D-substructure-keep', f'{tag}: substructure({sorted(sub_atoms)}, recalculate_hydrogens=False) atom {n}: '
+                            f'{m._atoms[n].implicit_hydrogens} -> {sub._atoms[n].implicit_hydrogens}', {'atom': n}))
+    parts = m.split()
+    if sorted(n for p in parts for n in p._atoms) != sorted(atoms):
+        raise RuntimeError(f'harness: split() of {tag} lost atoms')   # C13/C15 territory, not judged here
+    for p in parts:
+        b, _ = check_atoms(p, f'{tag} split part {sorted(p._atoms)}', h3=())
+        bad += [('D-split.' + cn.split('-')[0], what, nat) for cn, what, nat in b]
+    if all(a.implicit_hydrogens is not None for a in m._atoms.values()):
+        m.flush_cache()
+        if _brutto_sum(parts) != {k: v for k, v in m.brutto.items() if v}:
+            bad.append(('D-split-brutto', f'{tag}: brutto of the split() parts {_brutto_sum(parts)} != brutto {m.brutto}', {'library': m.brutto}))
+        if sum(int(p) for p in parts) != int(m) or abs(sum(float(p) for p in parts) - float(m)) > 1e-6 or any(p.is_radical for p in parts) != m.is_radical:
+            bad.append(('D-split-totals', f'{tag}: charge / mass / radical of the split() parts do not add up to the molecule', {}))
+        if len(parts) > 1:
+            u = parts[-1]
+            for p in parts[-2::-1]:
+                u = u | p
+            b, _ = check_atoms(u, f'{tag} union of the parts in reverse order', h3=())
+            bad += [('D-union.' + cn.split('-')[0], what, nat) for cn, what, nat in b]
+            u.flush_cache()
+            if {k: v for k, v in u.brutto.items() if v} != {k: v for k, v in m.brutto.items() if v} or int(u) != int(m) or abs(float(u) - float(m)) > 1e-6:
+                bad.append(('D-union-totals', f'{tag}: totals of the union of the parts differ from the molecule', {'library': u.brutto}))
+    return bad
+
+
+def check_gen(rec):
+    from bounded import d04_gen as G, domains
+    desc = G.describe(rec)
+    tag = f'generated {desc} numbers {rec["numbers"]}{" (public build)" if rec["public"] else ""}'
+    wit = {'kind': 'gen', 'record': rec}
+    m = G.build(rec)
+    bad, _ = check_atoms(m, tag)
+    tb, ok = check_totals(m, tag)
+    bad += tb
+    bad += check_derived(m, tag, domains.rnd('c04derived:' + desc))
+    return [(f'gen:{desc}:{c}', what, wit, native) for c, what, native in bad], ok, m
+
+
+# ---- edit: scripts of public edits ---------------------------------------------------------------------------------------------------
+EDIT_ELEMENTS = ('C', 'N', 'O', 'S', 'F', 'Cl', 'H', 'P', 'B')
+
+
+def make_script(rec, r, steps):
+    """seeded script of edits on the *record* (own bookkeeping, independent of the library).  Ops use node indices:
+    ('delete_bond', i, j, order before) ('delete_atom', i) ('add_bond', i, j, o) ('add_atom', sym, ch, rad, number, (i, o) | None)
+    ('txn', [op | ('charge', i, c) | ('radical', i, flag), ...])"""
+    n = len(rec['atoms'])
+    alive = set(range(n))
+    adj = {i: {} for i in range(n)}
+    for a, b, o in rec['bonds']:
+        adj[a][b] = adj[b][a] = o
+    numbers = list(rec['numbers'])
+    script = []
+
+    def structural():
+        kinds = ['add_atom', 'add_bond', 'delete_bond', 'delete_atom']
+        r.shuffle(kinds)
+        for k in kinds:
+            if k == 'delete_bond':
+                bs = sorted((a, b) for a in alive for b in adj[a] if a < b)
+                if bs:
+                    a, b = r.choice(bs)
+                    o = adj[a][b]
+                    del adj[a][b], adj[b][a]
+                    return ('delete_bond', a, b, o) if r.random() < .5 else ('delete_bond', b, a, o)
+            elif k == 'delete_atom':
+                if len(alive) > 2:
+                    a = r.choice(sorted(alive))
+                    alive.discard(a)
+                    for b in adj.pop(a):
+                        del adj[b][a]
+                    return ('delete_atom', a)
+            elif k == 'add_bond':
+                free = sorted((a, b) for a in alive for b in alive if a < b and b not in adj[a])
+                if free:
+                    a, b = r.choice(free)
+                    o = r.choice((1, 1, 1, 2, 3))
+                    adj[a][b] = adj[b][a] = o
+                    return ('add_bond', a, b, o) if r.random() < .5 else ('add_bond', b, a, o)
+            else:
+                i = len(numbers)
+                num = r.choice((max(numbers) + 1, max(numbers) + r.randrange(2, 3000), min(set(range(1, max(numbers) + 2)) - set(numbers))))
+                numbers.append(num)
+                alive.add(i)
+                adj[i] = {}
+                att = None
+                if r.random() < .8:
+                    a = r.choice(sorted(alive - {i}))
+                    o = r.choice((1, 1, 1, 2))
+                    adj[a][i] = adj[i][a] = o
+                    att = (a, o)
+                return ('add_atom', r.choice(EDIT_ELEMENTS), r.choice((0, 0, 0, 1, -1)), r.random() < .1, num, att)
+        raise RuntimeError('harness: no structural edit possible')
+
+    def attribute():
+        a = r.choice(sorted(alive))
+        if r.random() < .7:
+            return ('charge', a, r.choice((-1, 0, 1, 1, -1, 2, -2)))
+        return ('radical', a, r.random() < .6)
+
+    for _ in range(steps):
+        x = r.random()
+        if x < .5:
+            script.append(structural())
+        elif x < .65:
+            script.append(('txn', [attribute() for _ in range(r.choice((1, 1, 2)))]))
+        elif x < .8:
+            script.append(('txn', [structural() for _ in range(r.choice((1, 2, 3)))]))
+        else:
+            order = ['a'] * r.choice((1, 2)) + ['s'] * r.choice((1, 2))
+            r.shuffle(order)     # ops are generated in their final order: the bookkeeping above stays valid
+            script.append(('txn', [attribute() if x == 'a' else structural() for x in order]))
+    return script, numbers
+
+
+def _apply(m, op, num, nb_before):
+    """apply one op through the public API; returns the set of atoms whose *bonds* the op changed (ends of added / deleted bonds,
+    neighbours of a deleted atom, a new atom), decided from the op and the bonds before it"""
+    from chython.periodictable import Element
+    k = op[0]
+    if k == 'delete_bond':   # op[3] = order of the bond by the script's own bookkeeping; an "any" bond (8) is not a bond of the valence model
+        m.delete_bond(num[op[1]], num[op[2]])
+        return set() if op[3] == 8 else {num[op[1]], num[op[2]]}
+    if k == 'delete_atom':
+        touched = set(nb_before(num[op[1]]))
+        m.delete_atom(num[op[1]])
+        return touched
+    if k == 'add_bond':
+        m.add_bond(num[op[1]], num[op[2]], op[3])
+        return {num[op[1]], num[op[2]]}
+    if k == 'add_atom':
+        _, sym, ch, rad, number, att = op
+        m.add_atom(Element.from_symbol(sym)(charge=ch, is_radical=rad), number)
+        if att is not None:
+            m.add_bond(num[att[0]], number, att[1])
+            return {number, num[att[0]]}
+        return {number}
+    raise RuntimeError(f'harness: unknown op {op}')
+
+
+def op_text(op):
+    if op[0] == 'txn':
+        return 'with[' + ' '.join(op_text(o) for o in op[1]) + ']'
+    return op[0] + '(' + ','.join(str(x) for x in op[1:]) + ')'
+
+
+def run_script(rec, script, numbers, tag0, key0):
+    """returns (violations [(key, what, native)], steps done, stats)"""
+    from bounded import d04_gen as G
+    m = G.build(rec)
+    num = dict(enumerate(numbers))
+    out = []
+    stats = Counter()
+    done = 0
+
+    def nb_before(n):
+        return [k for k, b in m._bonds[n].items() if b.order != 8]
+
+    for si, op in enumerate(script):
+        tag = f'{tag0} after step {si + 1} of [{" ".join(op_text(o) for o in script[:si + 1])}]'
+        attr_atoms, touched = set(), set()
+        cls = op[0]
+        try:
+            if op[0] == 'txn':
+                kinds = {'attr' if o[0] in ('charge', 'radical') else 'struct' for o in op[1]}
+                cls = 'txn-' + '+'.join(sorted(kinds))
+                with m:
+                    for o in op[1]:
+                        if o[0] == 'charge':
+                            m.atom(num[o[1]]).charge = o[2]
+                            attr_atoms.add(num[o[1]])
+                        elif o[0] == 'radical':
+                            m.atom(num[o[1]]).is_radical = o[2]
+                            attr_atoms.add(num[o[1]])
+                        else:
+                            touched |= _apply(m, o, num, nb_before)
+            else:
+                touched = _apply(m, op, num, nb_before)
+        except RuntimeError:
+            raise
+        except Exception as e:   # an exception of an edit is not C04's claim (C13): counted, script abandoned
+            stats[f'edit_exception:{type(e).__name__}'] += 1
+            break
+        done += 1
+        stats[cls] += 1
+        # the input class of the recorded family: a transaction that changes charge / radical of an atom whose bonds no edit of the same
+        # transaction touches, together with at least one structural edit (predicate on the script only)
+        stale_class = {n for n in attr_atoms if n not in touched and n in m._atoms} if cls == 'txn-attr+struct' else set()
+        rest = [n for n in m._atoms if n not in stale_class]
+        from oracles import o04_valence as O
+        lib_none_stale = [n for n in stale_class if m._atoms[n].implicit_hydrogens is None]
+        b, _ = check_atoms(m, tag, h3=(), atoms=rest, none_other=lib_none_stale)
+        out += [(f'{key0}:{op_text(op)}#{si + 1}:{c}', what, nat) for c, what, nat in b]
+        for n in sorted(stale_class):
+            a = m._atoms[n]
+            exp = O.expected(a.atomic_symbol, a.charge, a.is_radical, [x for x in atom_env(m, n) if x[0] != 8])
+            if a.implicit_hydrogens != exp:
+                out.append(('edit:transaction changing charge/radical of an atom plus a structural edit elsewhere:H1-untouched-atom',
+                            f'{tag}: atom {n} {a.atomic_symbol}{a.charge:+d}{"*" if a.is_radical else ""} [{envtext(atom_env(m, n))}] has '
+                            f'implicit_hydrogens={a.implicit_hydrogens}, the element tables give {exp} (its charge / radical flag was changed inside the '
+                            f'transaction, its bonds were not)', {'atom': n, 'library': a.implicit_hydrogens, 'reference': exp}))
+                stats['stale_class_fired'] += 1
+            else:
+                stats['stale_class_ok'] += 1
+            # judge every step on its own: the atoms of this input class are recalculated by the harness before the next step, otherwise one
+            # stale count would be re-reported (under input-specific keys) by every later step that does not touch the atom
+            m.calc_implicit(n)
+        if stale_class:
+            m.flush_cache()
+        tb, _ = check_totals(m, tag)
+        out += [(f'{key0}:{op_text(op)}#{si + 1}:{c}', what, nat) for c, what, nat in tb]
+    return out, done, stats
+
+
+def check_edit(rec, seed_tag, steps):
+    from bounded import d04_gen as G, domains
+    desc = G.describe(rec)
+    r = domains.rnd(f'c04edit:{seed_tag}:{desc}')
+    script, numbers = make_script(rec, r, steps)
+    wit = {'kind': 'edit', 'record': rec, 'script': script, 'numbers': numbers}
+    v, done, stats = run_script(rec, script, numbers, f'edited {desc} numbers {rec["numbers"]}', f'edit:{desc}')
+    return [(k, what, wit, nat) for k, what, nat in v], done, stats
+
+
+def w_gen(chunk):
+    _setup()
+    from bounded import d04_gen as G
+    n = 0
+    keys, samples, viol = [], [], []
+    stats = Counter()
+    for rec, steps in chunk:
+        v, ok, m = check_gen(rec)
+        n += 1
+        stats['molecules'] += 1
+        stats['with_valence_error'] += bool(m.check_valence())
+        stats['totals'] += ok
+        stats['public_build'] += rec['public']
+        keys.append(G.describe(rec))
+        if not samples and ok:
+            samples.append({'generated': G.describe(rec), 'numbers': rec['numbers'], 'brutto': m.brutto})
+        if steps:
+            ve, done, st = check_edit(rec, 'gen', steps)
+            v += ve
+            n += done
+            for k, x in st.items():
+                stats[k] += x
+        if v and len(viol) < MAXV:
+            viol.extend(v[:MAXV - len(viol)])
+    return n, keys, samples, viol, dict(stats)
+
+
+def w_corpus_edit(chunk):
+    """Kekule forms of corpus molecules rebuilt from a record (seeded numbering / insertion order, half of them through the public
+    incremental API): same counts as the parsed molecule; then an edit script"""
+    _setup()
+    from chython import smiles
+    from bounded import d04_gen as G, domains
+    n = 0
+    keys, samples, viol = [], [], []
+    stats = Counter()
+    for s, steps in chunk:
+        m = smiles(s)
+        m.kekule()
+        r = domains.rnd('c04corpusrec:' + s)
+        rec = G.record_of(m, r)
+        b = G.build(rec)
+        v = []
+        for (n0, a), num in zip(m._atoms.items(), rec['numbers']):
+            if b._atoms[num].implicit_hydrogens != a.implicit_hydrogens:
+                v.append((f'rebuild:{s}:H1-rebuilt', f'{s}: atom {n0} has {a.implicit_hydrogens} hydrogens after parsing + kekule(), the same atom of the '
+                          f'molecule rebuilt with numbers {rec["numbers"]} (public={rec["public"]}) has {b._atoms[num].implicit_hydrogens}',
+                          {'kind': 'rebuild', 'smiles': s, 'record': rec}, {'atom': n0}))
+                break
+        n += 1
+        keys.append(s)
+        ve, done, st = check_edit(rec, 'corpus', steps)
+        for x in ve:
+            x[2]['smiles'] = s
+        v += ve
+        n += done
+        for k, x in st.items():
+            stats[k] += x
+        if v and len(viol) < MAXV:
+            viol.extend(v[:MAXV - len(viol)])
+    return n, keys, samples, viol, dict(stats)
+
+
+# ---- reader: stated hydrogen counts, reader options, molfile property lines -------------------------------------------------------------
+SMILES_OPTIONS = ({}, {'ignore_carbon_radicals': True}, {'keep_implicit': True}, {'ignore': False}, {'remap': True},
+                  {'ignore_aromatic_radicals': False})
+UNBRACKETED = ('B', 'C', 'N', 'O', 'P', 'S', 'F', 'Cl', 'Br', 'I')
+_BONDCHAR = {1: '-', 2: '=', 3: '#'}
+
+
+def star_smiles(sym, ch, rad, envt, h, position):
+    """centre written as a bracket atom with stated hydrogen count h (None: unbracketed, only neutral non-radical organic-subset atoms);
+    position: index of the centre among the written atoms (0 = first; k > 0: the k-th neighbour is written first as a prefix)"""
+    if h is None:
+        c = sym
+    else:
+        c = f'[{sym}{"H" + (str(h) if h != 1 else "") if h else ""}{("+" * ch if ch > 0 else "-" * -ch)}]'
+    nb = [(_BONDCHAR[o], '[H]' if e == 'H' else e) for o, e in envt]
+    pre = ''
+    if position and nb:
+        b, e = nb.pop(0)
+        pre = e + b
+    text = pre + c + ''.join(f'({b}{e})' for b, e in nb)
+    ci = 1 if pre else 0
+    if rad:
+        text += f' |^1:{ci}|'
+    return text, ci
+
+
+def check_reader_smiles(sym, ch, rad, envt, h, opt, position):
+    from chython import smiles
+    from oracles import o04_valence as O
+    text, ci = star_smiles(sym, ch, rad, envt, h, position)
+    kw = SMILES_OPTIONS[opt]
+    tag = f'smiles({text!r}{"".join(f", {k}={v}" for k, v in kw.items())})'
+    wit = {'kind': 'reader-smiles', 'element': sym, 'charge': ch, 'radical': rad, 'bonds': [list(x) for x in envt], 'h': h, 'option': opt,
+           'position': position}
+    try:
+        m = smiles(text, **kw)
+    except ValueError as e:
+        if kw.get('ignore') is False:
+            return [], 'rejected'     # ignore=False documents "do not skip checks": refusing a mismatching count is allowed
+        return [(f'reader:{text}:{opt}:R-exception', f'{tag}: {type(e).__name__}: {e}', wit, repr(e))], 'exception'
+    bad = []
+    centre = list(m._atoms)[ci]
+    a = m._atoms[centre]
+    if a.atomic_symbol != sym or a.charge != ch or len(m._bonds[centre]) != len(envt):
+        raise RuntimeError(f'harness: {tag} centre not where expected')
+    none_ref = []
+    for n, at in m._atoms.items():
+        cand = O.candidates(at.atomic_symbol, at.charge, at.is_radical, atom_env(m, n))
+        stated = n == centre and h is not None
+        if not cand:
+            none_ref.append(n)
+        got = at.implicit_hydrogens
+        if stated and kw.get('keep_implicit'):
+            if got != h:
+                bad.append(('R-keep_implicit', f'{tag}: keep_implicit=True but atom {n} has {got} hydrogens, written {h}', {'library': got}))
+            if got is None or got not in cand:
+                none_ref = [x for x in none_ref if x != n]   # a kept count need not be a valence state: out of H2's domain
+                if got is None:
+                    none_ref.append(n)
+            continue
+        if stated:
+            ok = (got is None and not cand) or (got is not None and got in cand)
+            # the written count selects the valence state whenever it is one of the candidates of the written charge / radical state
+            c0 = O.candidates(sym, ch, rad, atom_env(m, n))
+            if ok and h in c0 and (got != h or at.is_radical != rad):
+                bad.append(('R-stated-count', f'{tag}: the written count {h} is a valence state of the written atom (candidates {c0}) but the atom has '
+                            f'{got} hydrogens, radical={at.is_radical}', {'atom': n, 'library': got, 'candidates': c0}))
+        else:
+            ok = got == (cand[0] if cand else None)
+        if not ok:
+            bad.append(('R-count', f'{tag}: atom {n} {at.atomic_symbol}{at.charge:+d}{"*" if at.is_radical else ""} [{envtext(atom_env(m, n))}] has '
+                        f'implicit_hydrogens={got}; candidates of this state by the element tables {cand}'
+                        f'{f" (written count {h})" if stated else ""}', {'atom': n, 'library': got, 'candidates': cand}))
+    cv = sorted(m.check_valence())
+    if cv != sorted(none_ref):
+        bad.append(('R-check_valence', f'{tag}: check_valence() = {cv}, atoms without a valence state by the element tables = {sorted(none_ref)}',
+                    {'library': cv, 'reference': sorted(none_ref)}))
+    if not (kw.get('keep_implicit') and h is not None):
+        tb, _ = check_totals(m, tag)
+        bad += tb
+    return [(f'reader:{text}:{opt}:{c}', what, wit, native) for c, what, native in bad], a.implicit_hydrogens
+
+
+_CHARGE_FIELD = {0: 0, 3: 1, 2: 2, 1: 3, -1: 5, -2: 6, -3: 7}
+MOL_ISOTOPES = {'C': 13, 'N': 15, 'O': 18, 'H': 2, 'S': 34, 'Cl': 37, 'Br': 81, 'B': 10}
+
+
+def star_molfile(sym, ch, rad, envt, variant):
+    """V2000 text; variant bit 0: charge in the atom block field (else M  CHG), bit 1: centre is the last atom, bit 2: isotope on the centre"""
+    k = len(envt)
+    last = bool(variant & 2)
+    atoms = [(e, 0) for _, e in envt]
+    ci = k if last else 0
+    atoms.insert(ci, (sym, ch))
+    field = bool(variant & 1) and ch in _CHARGE_FIELD
+    lines = ['star', '  c04', '', f'{k + 1:3d}{k:3d}  0  0  0  0  0  0  0  0999 V2000']
+    for i, (e, c) in enumerate(atoms):
+        lines.append(f'{float(i):10.4f}{0.:10.4f}{0.:10.4f} {e:<3s} 0{_CHARGE_FIELD[c] if field and i == ci else 0:3d}  0  0  0  0  0  0  0  0  0  0')
+    for i, (o, _) in enumerate(envt):
+        j = i + 1 if last else i + 2
+        lines.append(f'{ci + 1:3d}{j:3d}{o:3d}  0  0  0  0')
+    if ch and not field:
+        lines.append(f'M  CHG  1{ci + 1:4d}{ch:4d}')
+    if rad:
+        lines.append(f'M  RAD  1{ci + 1:4d}   2')
+    iso = MOL_ISOTOPES.get(sym) if variant & 4 else None
+    if iso:
+        lines.append(f'M  ISO  1{ci + 1:4d}{iso:4d}')
+    lines.append('M  END')
+    return '\n'.join(lines) + '\n', ci, iso
+
+
+def check_reader_mol(sym, ch, rad, envt, variant):
+    from chython import mdl_mol
+    text, ci, iso = star_molfile(sym, ch, rad, envt, variant)
+    kw = {'remap': True} if variant & 8 else {}
+    tag = f'mdl_mol(star {statekey(sym, ch, rad, envt)} variant {variant})'
+    wit = {'kind': 'reader-mol', 'element': sym, 'charge': ch, 'radical': rad, 'bonds': [list(x) for x in envt], 'variant': variant}
+    m = mdl_mol(text, **kw)
+    centre = list(m._atoms)[ci]
+    a = m._atoms[centre]
+    if (a.atomic_symbol, a.charge, a.is_radical, a.isotope) != (sym, ch, rad, iso) or atom_env(m, centre) != tuple(sorted(tuple(x) for x in envt)):
+        return [(f'readermol:{statekey(sym, ch, rad, envt)}:{variant}:R-mol-state', f'{tag}: the centre was read as {a.atomic_symbol} charge {a.charge} '
+                 f'radical {a.is_radical} isotope {a.isotope} [{envtext(atom_env(m, centre))}]', wit, None)], None
+    bad, _ = check_atoms(m, tag, h3=(centre,))
+    tb, _ = check_totals(m, tag)
+    bad += tb
+    return [(f'readermol:{statekey(sym, ch, rad, envt)}:{variant}:{c}', what, wit, native) for c, what, native in bad], a.implicit_hydrogens
+
+
+def w_reader(item):
+    _setup()
+    sym, charges, neigh, sizes, part, parts = item
+    n = 0
+    keys, samples, viol = [], [], []
+    stats = Counter()
+    for i, envt in enumerate(_multisets(neigh, sizes)):
+        if i % parts != part:
+            continue
+        for ch in charges:
+            for rad in (False, True):
+                hs = [0, 1, 2, 3, 4]
+                if not ch and not rad and sym in UNBRACKETED:
+                    hs.append(None)
+                for h in hs:
+                    opt = (i + ch + (h or 0) + 3 * rad) % len(SMILES_OPTIONS)
+                    v, res = check_reader_smiles(sym, ch, rad, envt, h, opt, (i + (h or 0)) % 2)
+                    n += 1
+                    stats[f'smiles_option_{opt}'] += 1
+                    if res == 'rejected':
+                        stats['smiles_rejected_ignore_False'] += 1
+                    elif res is not None and res != 'exception':
+                        keys.append(f'smi:{statekey(sym, ch, rad, envt)}:{h}:{opt}')
+                    if v and len(viol) < MAXV:
+                        viol.extend(v[:MAXV - len(viol)])
+                if abs(ch) <= 3:
+                    variant = (i + ch + 5 * rad) % 16
+                    v, res = check_reader_mol(sym, ch, rad, envt, variant)
+                    n += 1
+                    stats['molfiles'] += 1
+                    if res is not None:
+                        keys.append(f'mol:{statekey(sym, ch, rad, envt)}:{variant}')
+                    if v and len(viol) < MAXV:
+                        viol.extend(v[:MAXV - len(viol)])
+    return n, keys, samples, viol, dict(stats)
+
+
+# ---- special: boundary inputs of the derived totals -----------------------------------------------------------------------------------
+SPECIAL_SMILES = (
+    '[13CH4]', '[2H]O[2H]', '[3H][3H]', '[H+]', '[H-]', '[H]', '[H][H]', '[2H+]', '[18OH2]', '[37Cl-].[Na+]', '[81Br]C', '[125I]I', '[15NH4+].[35Cl-]',
+    'C.[CH3]', 'CC.[O][O]', 'C.C.[OH-]', '[Na+].[Na+].[O-]S(=O)(=O)[O-]', 'CCO.[CH2]C', 'O.O.O.[Fe+3].[Cl-].[Cl-].[Cl-]', 'N#N.[C-]#[O+]',
+    'C[N+](C)(C)C.[I-]', '[O-][N+](=O)C([N+]([O-])=O)[N+]([O-])=O', '[CH2+]C[CH2-]', '[14CH3][14CH3]', 'F[B-](F)(F)F.[K+]', '[He]', '[U+4]',
+    'ClC(Cl)(Cl)Cl', 'O=C=O', 'S=C=S', '[SiH4]', '[PH4+]', '[BH4-]', '[SeH2]', 'C[Se]C', 'O=[As](O)(O)O', 'C#C', '[C-]#[C-]', '[O-][O-]', '[NH2-]',
+)
+
+
+def check_special(s):
+    """totals (T) + table re-derivation on hand-written boundary molecules and on their explicit-hydrogen forms"""
+    from chython import smiles
+    wit = {'kind': 'special', 'smiles': s}
+    bad = []
+    if s == '':
+        from chython.containers import MoleculeContainer
+        m = MoleculeContainer()
+        tag = 'empty MoleculeContainer()'
+        try:
+            f = float(m)
+        except Exception as e:
+            f = None
+            bad.append(('T-mass', f'{tag}: float(mol) raises {type(e).__name__}: {e}; the sum over no atoms is 0.0', repr(e)))
+        if f is not None and (not isinstance(f, float) or f != 0.):
+            bad.append(('T-mass', f'{tag}: float(mol) = {f!r}, the sum over no atoms is 0.0', f))
+        if int(m) != 0 or m.is_radical is not False or {k: v for k, v in m.brutto.items() if v} or m.check_valence() != []:
+            bad.append(('T-empty', f'{tag}: int {int(m)}, is_radical {m.is_radical}, brutto {m.brutto}, check_valence {m.check_valence()}', None))
+        return [(f'special:empty-molecule:{c}', what, wit, nat) for c, what, nat in bad], True
+    m = smiles(s)
+    tag = s
+    b, _ = check_atoms(m, tag)
+    bad += b
+    tb, ok = check_totals(m, tag)
+    bad += tb
+    if ok:
+        before = ({k: v for k, v in m.brutto.items() if v}, int(m), m.is_radical, float(m))
+        e = m.copy()
+        e.explicify_hydrogens()
+        e.flush_cache()
+        tb, _ = check_totals(e, tag + ' after explicify_hydrogens()')
+        bad += [('X-' + c, what, nat) for c, what, nat in tb]
+        after = ({k: v for k, v in e.brutto.items() if v}, int(e), e.is_radical, float(e))
+        if before[:3] != after[:3] or abs(before[3] - after[3]) > 1e-6:
+            bad.append(('X-explicit-form-totals', f'{tag}: totals {before} before, {after} after explicify_hydrogens()', {'before': before, 'after': after}))
+        if any(a.implicit_hydrogens for _, a in e.atoms()):
+            bad.append(('X-explicit-form-implicit', f'{tag}: atoms keep implicit hydrogens after explicify_hydrogens()', None))
+    return [(f'special:{s}:{c}', what, wit, nat) for c, what, nat in bad], ok
+
+
+def w_special(chunk):
+    _setup()
+    n = 0
+    keys, samples, viol = [], [], []
+    stats = Counter()
+    for s in chunk:
+        v, ok = check_special(s)
+        n += 1
+        if ok:
+            keys.append('special:' + s)
+        viol.extend(v)
+    return n, keys, samples, viol, dict(stats)
+
+
+def w_corpus_explicit(chunk):
+    """corpus molecules (Kekule form): explicify_hydrogens() keeps formula, charge, radical flag and mass; no implicit hydrogen remains"""
+    _setup()
+    from chython import smiles
+    n = 0
+    keys, samples, viol = [], [], []
+    for s in chunk:
+        m = smiles(s)
+        m.kekule()
+        if m.check_valence():
+            continue
+        before = ({k: v for k, v in m.brutto.items() if v}, int(m), m.is_radical, float(m))
+        try:
+            m.explicify_hydrogens()
+        except KeyError:
+            continue    # recorded C13/C14 family (stale not_special_connectivity); not C04's claim
+        m.flush_cache()
+        tb, _ = check_totals(m, s + ' after explicify_hydrogens()')
+        after = ({k: v for k, v in m.brutto.items() if v}, int(m), m.is_radical, float(m))
+        if before[:3] != after[:3] or abs(before[3] - after[3]) > 1e-6:
+            tb.append(('explicit-form-totals', f'{s}: totals {before} before, {after} after explicify_hydrogens()', {'before': before, 'after': after}))
+        n += 1
+        keys.append('explicit:' + s)
+        for c, what, nat in tb[:MAXV]:
+            viol.append((f'explicit:{s}:X-{c}', what, {'kind': 'explicit', 'smiles': s}, nat))
+    return n, keys, samples, viol, {}
+
+
 # ---- entry points ------------------------------------------------------------------------------------------------------------------
 def bounded(run):
     from oracles import o04_valence as O
@@ -412,12 +1073,60 @@ def bounded(run):
         items = [(sym, CHARGES, ext, (1, 2, 3), ORDERS, p, 8, '') for sym in O.ORGANIC for p in range(8)]
         collect(pmap(w_grid, items), 'gridx')
         run.bound(f'gridx (thorough, exhaustive): same states x all multisets of 1-3 bonds of orders 1-3 to the extended neighbour set {ext}')
+    # 3b. audit extension: boundary charges and hydrogen as the central atom
+    qs = (0, 1, 2, 3) if thorough else (0, 1, 2)
+    items = [(sym, (-4, -3, 3, 4), O.NEIGHBOURS, qs, ORDERS, 0, 1, '') for sym in O.ORGANIC]
+    items += [('H', CHARGES, O.NEIGHBOURS, qs, ORDERS, 0, 1, '')]
+    collect(pmap(w_grid, items), 'gridq')
+    run.bound(f'gridq (exhaustive): the 13 elements x charges -4,-3,+3,+4 (documented range of Element.charge is [-4, 4]) and central hydrogen x charge '
+              f'-2..+2, x radical flag x all multisets of <= {qs[-1]} bonds of orders 1-3 to {O.NEIGHBOURS}')
+    # 3c. public incremental construction under non-trivial numbering
+    parts = 8 if thorough else 2
+    items = [(sym, CHARGES, O.NEIGHBOURS, qs, p, parts) for sym in O.ORGANIC for p in range(parts)]
+    collect(pmap(w_numb, items), 'numb')
+    run.bound(f'numb (states exhaustive, numbering / insertion order seeded): 13 elements x charge -2..+2 x radical flag x all multisets of <= {qs[-1]} '
+              f'bonds, each built once through add_atom / add_bond with the library\'s own incremental recalculation, atom numbers by scheme '
+              f'{NUMBERINGS} (descending, gaps, 998.., 65530..), centre inserted at a seeded position')
+    # 3d. generated whole molecules without validity filter + edit scripts
+    from bounded import d04_gen as G
+    recs = G.records(7 if thorough else 6, 8 if thorough else 5, tag='c04gen')
+    steps = 10 if thorough else 6
+    work = [(rec, steps) for rec in recs]
+    chunks = [work[i::64] for i in range(64) if work[i::64]]
+    collect(pmap(w_gen, chunks), 'gen')
+    run.bound(f'gen (seeded): {len(recs)} unconstrained decorations of the connected atlas graphs with <= {7 if thorough else 6} nodes (elements incl. H '
+              f'leaves, orders 1-3, charges up to +-4, radicals, isotopes, second components, "any" bond to a metal; atom numbers seq / descending / '
+              f'gaps / >= 999 / shuffled; half built through the public incremental API): every atom H1-H3, totals with isotope masses, '
+              f'copy / substructure (one seeded atom subset) / split / union of the parts; then one seeded script of {steps} public edits each '
+              f'(add_atom, add_bond, delete_bond, delete_atom, transactions with charge / radical changes, mixed transactions), H1 H2 T after every step')
+    ks = 1200 if thorough else 160
+    sm = domains.corpus_sample(ks, 'c04edit')
+    work = [(x, steps) for x in sm]
+    chunks = [work[i::64] for i in range(64) if work[i::64]]
+    collect(pmap(w_corpus_edit, chunks), 'corpusedit')
+    run.bound(f'corpusedit (seeded): Kekule forms of {len(sm)} corpus molecules rebuilt atom by atom under a seeded numbering / insertion order '
+              f'(same counts as the parsed molecule), then one script of {steps} public edits each')
+    # 3e. readers
+    parts = 8 if thorough else 2
+    items = [(sym, CHARGES, O.NEIGHBOURS, qs, p, parts) for sym in O.ORGANIC + ('H',) for p in range(parts)]
+    collect(pmap(w_reader, items), 'reader')
+    run.bound(f'reader (exhaustive states, options / variants round-robin): 14 central elements (13 + H) x charge -2..+2 x radical flag x all multisets '
+              f'of <= {qs[-1]} bonds written as SMILES with the stated hydrogen count 0..4 (and unbracketed where the subset allows) under the reader '
+              f'options {SMILES_OPTIONS}, centre first or second, radicals through CXSMILES; and as V2000 molfiles (16 variants: charge field / M  CHG, '
+              f'centre first / last, M  ISO, remap)')
+    # 3f. boundary inputs of the totals
+    collect(pmap(w_special, [[x] for x in ('',) + SPECIAL_SMILES]), 'special')
+    run.bound(f'special: the empty molecule and {len(SPECIAL_SMILES)} hand-written isotopic / ionic / radical / multi-component molecules, implicit and '
+              f'explicit-hydrogen form')
     # 4. corpus
     k = None if thorough else 300
     sm = domains.corpus_sample(k, 'c04')
     chunks = [sm[i::64] for i in range(64) if sm[i::64]]
     collect(pmap(w_corpus, chunks), 'corpus')
     run.bound(f'corpus: {len(sm)} of the 4200 SMILES of pach/lipophilicity.csv (seeded sample in the quick tier), after kekule() + thiele()')
+    chunks = [sm[i::32] for i in range(32) if sm[i::32]]
+    collect(pmap(w_corpus_explicit, chunks), 'explicit')
+    run.bound('explicit: the same corpus molecules (Kekule form): totals before == totals after explicify_hydrogens(), T on the explicit form')
 
     run.assume('reference model oracles/o04_valence.py: hydrogen count re-derived from the raw _common_valences/_valences_exceptions tables of the '
                'tree under verification following the docstring of Element._valences_exceptions (first candidate wins); a change of a table row '
@@ -432,9 +1141,34 @@ def bounded(run):
                'table re-derivation, check_valence, check_implicit and totals contracts only (RDKit\'s valence model against the library tables for '
                'elements outside the organic subset is outside the property: e.g. bare As is As(0) by the tables, AsH3 for RDKit)',
                'corpus molecules are valence-valid drug-like structures: RDKit (full sanitization) and the library must agree on every atom in both directions',
-               'standard atomic weights of RDKit\'s periodic table; masses compared within 0.05')
+               'standard atomic weights of RDKit\'s periodic table; masses compared within 0.05',
+               'isotope masses of RDKit\'s periodic table (oracles/o04_masses.py) for the 22 isotopes used in the gen / reader / special domains',
+               'reader domain: a hydrogen count written in a SMILES bracket atom may select any candidate of the final charge / radical state '
+               '(docstring of Element._valences_exceptions, files/_convert.py); with keep_implicit=True the written atom is outside the contracts; '
+               'with ignore=False a ValueError is an accepted answer',
+               'edit scripts: an exception raised by an edit is not judged here (C13); the script is abandoned and counted')
     run.notes['c04_bounded_stats'] = dict(stats)
     run.notes['c04_violations_per_contract'] = dict(vcount)
+
+
+def _rec(d):
+    """record back from its JSON form"""
+    d = dict(d)
+    d['atoms'] = [tuple(a) for a in d['atoms']]
+    d['bonds'] = [tuple(b) for b in d['bonds']]
+    return d
+
+
+def _script(ops):
+    out = []
+    for op in ops:
+        if op[0] == 'txn':
+            out.append(('txn', _script(op[1])))
+        elif op[0] == 'add_atom':
+            out.append(tuple(op[:5]) + (None if op[5] is None else tuple(op[5]),))
+        else:
+            out.append(tuple(op))
+    return out
 
 
 def replay(rec):
@@ -442,6 +1176,33 @@ def replay(rec):
     w = rec.get('witness') or {}
     if w.get('kind') == 'grid':
         v, _, _ = check_state(w['element'], w['charge'], w['radical'], [tuple(x) for x in w['bonds']], w.get('ring') or '')
+    elif w.get('kind') == 'numb':
+        v, _ = check_numb(w['element'], w['charge'], w['radical'], [tuple(x) for x in w['bonds']], w['scheme'], w['centre'], w['numbers'], w['centre_pos'])
+    elif w.get('kind') == 'gen':
+        v, _, _ = check_gen(_rec(w['record']))
+    elif w.get('kind') == 'edit':
+        from bounded import d04_gen as G
+        rc = _rec(w['record'])
+        desc = G.describe(rc)
+        vv, _, _ = run_script(rc, _script(w['script']), w['numbers'], f'edited {desc}', f'edit:{desc}')
+        v = [(k, what, w, nat) for k, what, nat in vv]
+    elif w.get('kind') == 'rebuild':
+        from bounded import d04_gen as G
+        from chython import smiles
+        m = smiles(w['smiles'])
+        m.kekule()
+        rc = _rec(w['record'])
+        b = G.build(rc)
+        v = [('rebuild:x:H1-rebuilt', f'atom {n0}: {a.implicit_hydrogens} vs {b._atoms[num].implicit_hydrogens}', w, None)
+             for (n0, a), num in zip(m._atoms.items(), rc['numbers']) if b._atoms[num].implicit_hydrogens != a.implicit_hydrogens]
+    elif w.get('kind') == 'reader-smiles':
+        v, _ = check_reader_smiles(w['element'], w['charge'], w['radical'], [tuple(x) for x in w['bonds']], w['h'], w['option'], w['position'])
+    elif w.get('kind') == 'reader-mol':
+        v, _ = check_reader_mol(w['element'], w['charge'], w['radical'], [tuple(x) for x in w['bonds']], w['variant'])
+    elif w.get('kind') == 'special':
+        v, _ = check_special(w['smiles'])
+    elif w.get('kind') == 'explicit':
+        _, _, _, v, _ = w_corpus_explicit([w['smiles']])
     elif w.get('kind') == 'corpus':
         try:
             v, _ = check_corpus_smiles(w['smiles'])
